@@ -2576,3 +2576,452 @@ func c07GeneratorOnce(c *Ctx) {
 	}
 	c.MinCount(strings.TrimSuffix(prefix, "/"), 4, "functions holding a blob descriptor generator (the two wrappers, a signer, a verifier)")
 }
+
+// ---- fallible steps of the signing call tree ----------------------------------------------------------------------
+//
+// The clause: "what the library signs is the descriptor of the content, and it reports what was signed". Signing is a
+// chain of fallible steps — ask for the key spec, evaluate the descriptor generator (read the blob), marshal the payload,
+// create / sign / self-verify the envelope, ask the plugin. Each step hands back (values…, error); when the error is not
+// nil the values are the zero value or a partial result (the zero descriptor, the byte count of an interrupted read, nil
+// payload bytes, an envelope that was never signed). If such a value is consumed — stored into the request, handed to the
+// next step, returned — on a path that never passed the nil-error edge of the step, and that path can end in a
+// success-capable exit, then Sign / SignBlob report success for a payload that is not the descriptor of the content (or
+// return a signature / SignerInfo that does not come from a successful step): the round trip "sign, then verify, and get
+// the signed descriptor back" is broken exactly when a step fails. So, as a necessary condition:
+//
+//	for every call c of the signing call tree whose last result is an error, for every consumption u of a value
+//	derived from c's other results: no path leads from c to u and on to a success-capable exit without passing an edge
+//	on which c's error is known to be nil.
+//
+// This is a cut-set statement, decided on the CFG with the engine's path search: remove every edge that establishes
+// "error of c == nil" (c07NilEdges), then look for a path c -> u (reachHit) -> success-capable exit (successWitness).
+// It does not ask where the test stands, how it is spelled or what follows it. Shapes accepted, because they leave no such
+// path: the test right after the call, after other statements, merged with the test of another step through a phi
+// (`if err == nil { x, err = g() }; if err != nil`), in a switch, with operands swapped, negated, in a module predicate
+// applied to the error (labels composed by the engine), the error kept in a cell; a use ahead of the test when every
+// continuation of it is cut by the test; `return f()` and single-exit functions that hand the error of c on as their own
+// error (the exit is then as successful as c was: set aside through FnInfo.ignoreTail, by predecessor for a phi in the
+// return block). A value is followed through pure derivations (fields, conversions, indexing, arithmetic, builtins,
+// ranging) and through phis — a phi carries the value only over the edge of that operand, so the path has to enter the
+// phi's block from that predecessor (`if ref, err := parse(s); err == nil { s = ref.X }` is not a use of ref on the failing
+// path). Consumptions are: operand of a Return (other than the error), argument / receiver / callee of a call, the value
+// of a Store / MapUpdate / Send into memory that is not a local of the function, a closure binding; a value parked in a local
+// variable or in a literal under construction is followed to the reads and hand-overs of that local. Uses that only end
+// in formatting or logging are cosmetic and ignored.
+//
+// The signing call tree is found from the exported API (notation.Sign, SignOCI, SignBlob, the implementations of
+// notation.Signer.Sign and notation.BlobSigner.SignBlob) by following every module function that is called statically or
+// made into a function value (closures, bound methods: the descriptor generator) from there.
+
+// c07SigningTree: the module functions of the signing call tree, in a stable order, and the anchors that must be in it.
+func c07SigningTree(w *World) (tree []*ssa.Function, anchors []*ssa.Function, missing []string) {
+	var roots []*ssa.Function
+	for _, name := range []string{"SignOCI", "SignBlob"} {
+		if fn := w.Func("", name); fn != nil {
+			roots = append(roots, fn)
+			anchors = append(anchors, fn)
+		} else {
+			missing = append(missing, "notation."+name)
+		}
+	}
+	if fn := w.Func("", "Sign"); fn != nil {
+		roots = append(roots, fn)
+	}
+	sg := w.implementers("", "Signer", "Sign")
+	bs := w.implementers("", "BlobSigner", "SignBlob")
+	if len(sg) == 0 {
+		missing = append(missing, "an implementation of notation.Signer.Sign")
+	}
+	if len(bs) == 0 {
+		missing = append(missing, "an implementation of notation.BlobSigner.SignBlob")
+	}
+	roots = append(roots, sg...)
+	roots = append(roots, bs...)
+	anchors = append(anchors, sg...)
+	anchors = append(anchors, bs...)
+	seen := map[*ssa.Function]bool{}
+	var visit func(f *ssa.Function)
+	visit = func(f *ssa.Function) {
+		if f == nil || seen[f] || f.Blocks == nil {
+			return
+		}
+		if o := f.Origin(); o != nil && !w.IsProductFn(o) {
+			return
+		}
+		if !w.IsProductFn(f) && f.Synthetic == "" {
+			return
+		}
+		if f.Synthetic != "" && f.Pkg != nil && !w.IsProductPkg(f.Pkg.Pkg.Path()) {
+			return
+		}
+		seen[f] = true
+		if w.IsProductFn(f) && f.Synthetic == "" {
+			tree = append(tree, f)
+		}
+		for _, b := range f.Blocks {
+			for _, in := range b.Instrs {
+				for _, op := range in.Operands(nil) {
+					if op == nil || *op == nil {
+						continue
+					}
+					if g, ok := (*op).(*ssa.Function); ok {
+						visit(g)
+					}
+				}
+			}
+		}
+	}
+	for _, r := range roots {
+		visit(r)
+	}
+	sort.SliceStable(tree, func(i, j int) bool { return tree[i].String() < tree[j].String() })
+	return tree, anchors, missing
+}
+
+// c07ErrorHolders: the values of the function that can hold the error result errX of a step: the result itself, phis it
+// flows into, loads of a local cell it is stored into, interface conversions of these.
+func c07ErrorHolders(errX ssa.Value) map[ssa.Value]bool {
+	set := map[ssa.Value]bool{}
+	var add func(v ssa.Value)
+	add = func(v ssa.Value) {
+		if v == nil || set[v] {
+			return
+		}
+		set[v] = true
+		refs := v.Referrers()
+		if refs == nil {
+			return
+		}
+		for _, r := range *refs {
+			switch x := r.(type) {
+			case *ssa.Phi:
+				add(x)
+			case *ssa.ChangeInterface:
+				add(x)
+			case *ssa.ChangeType:
+				add(x)
+			case *ssa.Store:
+				al, ok := x.Addr.(*ssa.Alloc)
+				if !ok || x.Val != v || al.Referrers() == nil {
+					continue
+				}
+				for _, lr := range *al.Referrers() {
+					if ld, ok := lr.(*ssa.UnOp); ok && ld.Op == token.MUL && ld.X == ssa.Value(al) {
+						add(ld)
+					}
+				}
+			}
+		}
+	}
+	add(errX)
+	return set
+}
+
+// c07NilEdges: the If edges of the function on which the error of the step is known to be nil — a nil comparison of one
+// of its holders (either spelling, either operand order, negated), or a condition whose composed facts (module predicate
+// applied to the error, success of a helper that tested it) contain "holder == nil".
+func c07NilEdges(fi *FnInfo, holders map[ssa.Value]bool) map[edgeKey]bool {
+	want := map[string]bool{}
+	for h := range holders {
+		want["EQ("+desc(h)+",nil)"] = true
+	}
+	saysNil := func(cond ssa.Value, truth bool) bool {
+		for {
+			u, ok := cond.(*ssa.UnOp)
+			if !ok || u.Op != token.NOT {
+				break
+			}
+			cond, truth = u.X, !truth
+		}
+		bo, ok := cond.(*ssa.BinOp)
+		if !ok || (bo.Op != token.EQL && bo.Op != token.NEQ) {
+			return false
+		}
+		var o ssa.Value
+		switch {
+		case isNilConst(bo.Y):
+			o = bo.X
+		case isNilConst(bo.X):
+			o = bo.Y
+		default:
+			return false
+		}
+		return holders[o] && ((bo.Op == token.EQL) == truth)
+	}
+	out := map[edgeKey]bool{}
+	for _, b := range fi.Fn.Blocks {
+		iff, ok := blockTerm(b).(*ssa.If)
+		if !ok || len(b.Succs) != 2 {
+			continue
+		}
+		for j := 0; j < 2; j++ {
+			truth := j == 0
+			if saysNil(iff.Cond, truth) || want[condLabel(iff.Cond, truth)] {
+				out[edgeKey{b.Index, j}] = true
+				continue
+			}
+			if comp := fi.composeCond(iff.Cond, truth); comp != nil {
+				for l := range comp.Checked {
+					if want[l] {
+						out[edgeKey{b.Index, j}] = true
+						break
+					}
+				}
+			}
+		}
+	}
+	return out
+}
+
+// c07LocalRoot: the local variable (Alloc of this function) the address points into, through field / element selection
+// only; nil for memory reached through a loaded pointer, a parameter or a global.
+func c07LocalRoot(addr ssa.Value) *ssa.Alloc {
+	for i := 0; i < 8; i++ {
+		switch x := addr.(type) {
+		case *ssa.Alloc:
+			return x
+		case *ssa.FieldAddr:
+			addr = x.X
+		case *ssa.IndexAddr:
+			addr = x.X
+		default:
+			return nil
+		}
+	}
+	return nil
+}
+
+// c07StepLeak: one consumption of a step's result that a success-capable path reaches without the step's nil-error edge.
+type c07StepLeak struct {
+	Call *ssa.Call
+	Use  ssa.Instruction
+	Path []string
+}
+
+// c07StepLeaks decides the clause for one fallible call of fn. used reports whether a non-error result of the call is
+// consumed at all (a step whose values are dropped or only logged is none of this rule's business).
+func c07StepLeaks(w *World, fi *FnInfo, call *ssa.Call) (leak *c07StepLeak, used bool) {
+	tup, ok := call.Type().(*types.Tuple)
+	if !ok || tup.Len() < 2 || !isErrorType(tup.At(tup.Len()-1).Type()) || call.Referrers() == nil {
+		return nil, false
+	}
+	var errX ssa.Value
+	var vals []*ssa.Extract
+	for _, r := range *call.Referrers() {
+		if ex, ok := r.(*ssa.Extract); ok {
+			if ex.Index == tup.Len()-1 {
+				errX = ex
+			} else {
+				vals = append(vals, ex)
+			}
+		}
+	}
+	if len(vals) == 0 {
+		return nil, false
+	}
+	cut := map[edgeKey]bool{}
+	if errX != nil {
+		cut = c07NilEdges(fi, c07ErrorHolders(errX))
+	}
+	type rk struct{ a, b int }
+	reachMemo := map[rk]bool{}
+	reach := func(a, b *ssa.BasicBlock) bool {
+		if a == b {
+			return true
+		}
+		k := rk{a.Index, b.Index}
+		if r, ok := reachMemo[k]; ok {
+			return r
+		}
+		r := fi.reachHit([]state{{a.Index, 0, -1}}, cut, map[int]bool{b.Index: true})
+		reachMemo[k] = r
+		return r
+	}
+	// tainted values: v carries (something derived from) a result of this very execution of the call on some cut-avoiding
+	// path from the call to block b; pred >= 0: v is (derived in b from) a phi of b taken over the edge of that predecessor
+	type tv struct {
+		v    ssa.Value
+		b    *ssa.BasicBlock
+		pred int
+	}
+	type tk struct {
+		v    ssa.Value
+		pred int
+	}
+	seen := map[tk]bool{}
+	var work []tv
+	push := func(t tv) {
+		if !seen[tk{t.v, t.pred}] {
+			seen[tk{t.v, t.pred}] = true
+			work = append(work, t)
+		}
+	}
+	for _, ex := range vals {
+		push(tv{ex, call.Block(), -1})
+	}
+	old := fi.ignoreTail
+	fi.ignoreTail = map[*ssa.Call]bool{call: true}
+	defer func() { fi.ignoreTail = old }()
+	witness := func(t tv, u ssa.Instruction) []string {
+		ub := u.Block()
+		if !reach(t.b, ub) {
+			return nil
+		}
+		p := -1
+		if _, isRet := u.(*ssa.Return); isRet && ub == t.b && fi.phiRet[ub] {
+			p = t.pred
+		}
+		return fi.successWitness(Mode{Kind: mErr}, []state{{ub.Index, 0, p}}, cut)
+	}
+	for len(work) > 0 {
+		t := work[0]
+		work = work[1:]
+		refs := t.v.Referrers()
+		if refs == nil {
+			continue
+		}
+		for _, r := range *refs {
+			if onlyFormatted(r, 0) {
+				continue
+			}
+			derivedPred := func(in ssa.Instruction) int {
+				if in.Block() == t.b {
+					return t.pred
+				}
+				return -1
+			}
+			consumed := false
+			switch x := r.(type) {
+			case *ssa.DebugRef:
+			case *ssa.Phi:
+				pb := x.Block()
+				for i, e := range x.Edges {
+					if e != t.v || i >= len(pb.Preds) {
+						continue
+					}
+					p := pb.Preds[i]
+					if !reach(t.b, p) {
+						continue
+					}
+					open := false
+					for j, s := range p.Succs {
+						if s == pb && !cut[edgeKey{p.Index, j}] {
+							open = true
+						}
+					}
+					if open {
+						push(tv{x, pb, i})
+					}
+				}
+			case *ssa.Return:
+				for k, rv := range x.Results {
+					if rv == t.v && !isErrorType(x.Parent().Signature.Results().At(k).Type()) {
+						consumed = true
+					}
+				}
+			case ssa.CallInstruction:
+				com := x.Common()
+				if b, isB := com.Value.(*ssa.Builtin); isB {
+					// len, cap, append, copy, …: a derivation (append / copy into other storage are stores of what is derived)
+					_ = b
+					if v, isV := r.(ssa.Value); isV && reach(t.b, r.Block()) {
+						push(tv{v, r.Block(), derivedPred(r)})
+					}
+					continue
+				}
+				used = true
+				consumed = true
+			case *ssa.Store:
+				if x.Val != t.v {
+					break // a write into (a component of) the value, not a use of it
+				}
+				if al := c07LocalRoot(x.Addr); al != nil {
+					// kept in a local variable / literal under construction: what matters is where that is read or handed on
+					if reach(t.b, x.Block()) {
+						push(tv{al, x.Block(), -1})
+					}
+					break
+				}
+				consumed = true
+			case *ssa.MapUpdate:
+				consumed = x.Key == t.v || x.Value == t.v
+			case *ssa.Send:
+				consumed = x.X == t.v
+			case *ssa.MakeClosure:
+				consumed = true
+			case *ssa.If, *ssa.Jump, *ssa.Panic, *ssa.RunDefers:
+			default:
+				// a pure derivation (field, element, conversion, arithmetic, comparison, range / next / extract, type assertion)
+				if v, isV := r.(ssa.Value); isV && reach(t.b, r.Block()) {
+					push(tv{v, r.Block(), derivedPred(r)})
+				}
+			}
+			if !consumed {
+				continue
+			}
+			used = true
+			if leak == nil {
+				if path := witness(t, r); path != nil {
+					leak = &c07StepLeak{Call: call, Use: r, Path: path}
+				}
+			}
+		}
+	}
+	return leak, used
+}
+
+// c07StepsSucceeded: see the comment at the head of this section.
+func c07StepsSucceeded(c *Ctx) {
+	w := c.W
+	const prefix = "signing/step-succeeded/"
+	const rule = "must-check: in the signing call tree, a value handed back by a fallible step (key spec, descriptor generator, payload marshalling, envelope creation / signing / self-verification, plugin answer) " +
+		"is consumed — stored, handed to the next step, returned — only on paths that passed the nil-error edge of that step, unless no such path can end in a success-capable exit: " +
+		"otherwise signing reports success for a payload built from the zero or partial result of a failed step (the zero descriptor, the digest of an interrupted read, empty payload bytes), which is not the descriptor of the content"
+	tree, anchors, missing := c07SigningTree(w)
+	for _, m := range missing {
+		c.Unk(prefix+"#anchor", "anchor: the signing API ("+m+")", "-", "not found")
+	}
+	decided := map[*ssa.Function]bool{}
+	for _, fn := range tree {
+		fi := w.Info(fn)
+		nSteps := 0
+		var leaks []*c07StepLeak
+		for _, ci := range allCalls(fn) {
+			call, ok := ci.(*ssa.Call)
+			if !ok {
+				continue
+			}
+			leak, used := c07StepLeaks(w, fi, call)
+			if !used {
+				continue
+			}
+			nSteps++
+			c.Evals++
+			if leak != nil {
+				leaks = append(leaks, leak)
+			}
+		}
+		if nSteps == 0 {
+			continue
+		}
+		decided[fn] = true
+		c.SeenFn(fn.String())
+		key := prefix + fnName(fn)
+		if len(leaks) == 0 {
+			c.OK(key, rule, w.FnPos(fn))
+			continue
+		}
+		l := leaks[0]
+		detail := fmt.Sprintf("%s consumes the result of %s at %s on a path that reaches a success-capable exit without having seen that step's error to be nil", fnName(fn), calleeName(l.Call), w.InstrPos(l.Use))
+		if len(leaks) > 1 {
+			detail += fmt.Sprintf(" (and %d more steps)", len(leaks)-1)
+		}
+		c.Bad(key, rule, w.InstrPos(l.Call), detail, l.Path...)
+	}
+	for _, fn := range anchors {
+		if !decided[fn] {
+			c.Unk(prefix+fnName(fn), rule, w.FnPos(fn), "anchor: this function of the signing API has no fallible step whose result it consumes (not even the signer it delegates to)")
+		}
+	}
+	c.MinCount(strings.TrimSuffix(prefix, "/"), 6, "functions of the signing call tree with fallible steps (the wrappers, the signers' Sign and SignBlob, the descriptor generator)")
+}
